@@ -70,6 +70,11 @@ CLAIMED = {
         "level": "Decides the visit order of the MIR lowerer (which fixes evaluation order) for all constructs named in the property; the emitted call sequence of every program is not decided.",
         "note": "Partial: clauses O1-O3.",
     },
+    "C03": {
+        "technique": "frame-depth dataflow on the MIR of every lowering method (push/pop of stack_slots told apart by the Vec's element type), drain check of every popped frame, 'visit after new_block must own a frame' (typestate of conditionally/repeatedly executed regions), who-may-call for emit_return, dominance chains in assign and RotoFunc::invoke",
+        "level": "Decides the MIR lowerer's frame bookkeeping structurally on all CFG paths of all lowering methods - the mechanism that makes generated drops balance; the clone/drop balance of a particular script's generated code is not decided.",
+        "note": "Partial: clauses F1-F6.",
+    },
 }
 _PENDING = "check under construction in this session; not yet claimed"
 NOT_APPLICABLE = {p: _PENDING for p in
